@@ -834,8 +834,15 @@ func (interp *Interpreter) cfg(root *node, sc *scope, importPath, pkgName string
 							sym, _, _ = sc.lookup(dest.ident)
 							if !sc.global && sym != nil && n.nleft > 1 {
 								// In a multiple definition, a variable already declared in
-								// the same scope is assigned, not created.
+								// the same scope is assigned, not created: it keeps its type.
 								dest.redeclared = true
+								if sym.kind == varSym && sym.typ != nil {
+									if !src.typ.assignableTo(sym.typ) {
+										err = src.cfgErrorf("cannot use type %s as type %s in assignment", src.typ.id(), sym.typ.id())
+										return
+									}
+									dest.typ = sym.typ
+								}
 							}
 						}
 					}
